@@ -56,6 +56,23 @@ CORPUS = [
 ]
 
 
+def cast_corpus():
+    """every cast type x every prefix-unary shape after the cast (the cast-vs-binary-operator decision of iscast)"""
+    P, Q, A, B = ('i', 4), ('i', 5), ('i', 0), ('i', 1)
+    shapes = [('p', 6, ('p', 4, P)), ('p', 7, ('p', 4, Q)), ('p', 6, ('p', 4, ('p', 4, ('i', G.NID["ps"])))),
+              ('p', 6, A), ('p', 7, ('r', A)), ('p', 1, A), ('p', 4, P), ('p', 5, A), ('p', 2, A), ('p', 3, A),
+              ('p', 0, A), ('t', 0, ('p', 1, A)), ('t', 2, ('p', 5, A)), ('r', ('b', 3, A, B)), A, ('n', 7),
+              ('q', 0, A), ('x', ('i', G.NID["arr"]), A), ('g', ('i', G.NID["g"]), A), ('p', 1, ('p', 6, ('p', 4, P)))]
+    out = []
+    for ty in range(len(G.TYPES)):
+        for k, sh in enumerate(shapes):
+            e = ('t', ty, sh)
+            out.append(("c" if (ty + k) % 2 else "cpp", ('a', 0, ('i', G.NID["r"]), e)))
+            if k < 4:
+                out.append(("cpp" if (ty + k) % 2 else "c", ('a', 0, ('i', G.NID["r"]), ('b', 3, B, e))))
+    return out
+
+
 def token_strs(fs):
     """render output fields (label tok)* -> (labels, token fields)"""
     labs = [int(fs[i]) for i in range(0, len(fs), 2)]
@@ -169,7 +186,7 @@ def bucket_of(rec):
             walk(k)
     walk(e)
     cls = "".join(sorted(kinds - set("in")))
-    return "%s,%s,size%02d" % (rec["lang"], rec["status"], min(G.size(e), 40) // 5 * 5)
+    return "%s,%s%s,size%02d" % (rec["lang"], rec["status"], ",cast" if G.has_cast(e) else "", min(G.size(e), 40) // 5 * 5)
 
 
 def judge(run, recs, stream_prefix=""):
@@ -179,10 +196,12 @@ def judge(run, recs, stream_prefix=""):
         e = rec["e"]
         nt = (rec["lang"], rec["text"]) if G.size(e) >= 3 else None
         # theorem instance
-        if rec["wf"] and rec["labels_ok"]:
+        if G.has_cast(e):
+            run.count(stream_prefix + "theorem-instance", None, nontrivial=None, bucket="outside-model:cast")
+        elif rec["wf"] and rec["labels_ok"]:
             run.count(stream_prefix + "theorem-instance", None, nontrivial=nt,
                       bucket=("holds" if rec["thm"] else "FAILS") + (",fnptr-decl-pattern" if rec["decl_like"] else ""))
-            if not rec["thm"]:
+            if not rec["thm"] and not G.has_cast(e):
                 thm.append(rec)
         else:
             run.count(stream_prefix + "theorem-instance", None, nontrivial=None,
@@ -192,7 +211,7 @@ def judge(run, recs, stream_prefix=""):
             continue
         # the tokenizer rewrites some token sequences before createAst (unary '+' dropped, '- -' -> '+',
         # '- 1' -> '-1', ...): the property is compared only when the operator/operand tokens are unchanged
-        plain = lambda l: [x for x in l if x not in ("(", ")", ";")]
+        plain = G.plain
         if plain(rec["impl_strs"]) != plain(rec["strs"]):
             rec["rewritten"] = True
             run.count(stream_prefix + "spec-vs-impl", None, nontrivial=None, bucket="tokenizer-rewrote-tokens")
@@ -268,7 +287,7 @@ def shrink(ev, rec, pred):
 
 
 def is_prop_violation(r):
-    plain = lambda l: [x for x in l if x not in ("(", ")", ";")]
+    plain = G.plain
     return r["status"] == "ok" and r["wf"] and plain(r["impl_strs"]) == plain(r["strs"]) and r["impl_tree"] != r["spec_tree"]
 
 
@@ -389,7 +408,7 @@ def check(run, replay):
     def wrap(e):
         return ('a', 0, ('i', G.NID["r"]), e)
 
-    cases = list(CORPUS)
+    cases = list(CORPUS) + cast_corpus()
     n = 2500 if quick else 50000
     for _ in range(n):
         lang = rng.choice(["c", "cpp"])
